@@ -262,3 +262,34 @@ def lens_helper_total(ctx, clause: str):
            f"edit_distance / error_rate / prefix_* / optimal_completion with `eos` given raise 'max(): Expected reduction dim to "
            f"have non-zero size' for an empty hypothesis or reference dimension, although the same inputs work with eos=None",
            rel, sites[0].lineno if sites else f.line, sample=[u(c)[:60] for c in sites])
+
+
+def no_eos_mask_uses_its_own_extent(ctx, clause: str):
+    """A sequence 'has no eos' when its eos-derived length equals the extent of ITS OWN tensor. The kernel computes that mask
+    once for the references and once for the hypotheses; comparing one side's lengths with the other side's extent mistakes
+    an eos that happens to sit at that index for a missing one (and leaves a genuinely missing one uncorrected)."""
+    from sa.defuse import ReachingDefs
+    col, pkg = ctx.col, ctx.pkg
+    rel = pkg.module(MOD).relname
+    f = pkg.func(f"{MOD}::{KERNEL}")
+    rd = ReachingDefs(f.node)
+    sides = {f.params[0].name, f.params[1].name}
+    n = 0
+    for st in own_nodes(f.node):
+        if not (isinstance(st, ast.Assign) and isinstance(st.value, ast.Compare) and len(st.value.ops) == 1
+                and isinstance(st.value.ops[0], ast.Eq)):
+            continue
+        a, b = st.value.left, st.value.comparators[0]
+        pa, pb = rd.derives(a).params() & sides, rd.derives(b).params() & sides
+        # one operand is a length (derives through _lens_from_eos), the other an extent (derives from .shape / .size)
+        def is_len(e):
+            return any(call_name(c).endswith("_lens_from_eos") for c in rd.derives(e).calls())
+        if is_len(b) and not is_len(a):
+            a, b, pa, pb = b, a, pb, pa
+        if not is_len(a) or is_len(b) or len(pa) != 1:
+            continue
+        n += 1
+        col.ob("G13", clause, f"{rel}::{KERNEL}::no-eos-mask[{sorted(pa)[0]}]-compares-with-its-own-extent", pb == pa,
+               f"`{u(st)}` compares lengths derived from `{sorted(pa)[0]}` with an extent derived from {sorted(pb) or '?'}: a "
+               f"sequence lacks its eos when its length equals the extent of its own tensor", rel, st.lineno)
+    col.floor("no_eos_masks", n, 2)
